@@ -550,7 +550,7 @@ class Interp:
             if v is None:
                 raise self.fail(self.err("Undefined", pos, [e.name], pinned=True))
             return v
-        if t is A.Str:
+        if t is A.Str or t is A.StrLit:
             return SV(e.s.encode("utf-8"))
         if t is A.Null:
             return SV(None)
@@ -678,6 +678,8 @@ class Interp:
         out = []
         offset = 0          # characters of decoded text so far
         for part in e.parts:
+            if isinstance(part, tuple):
+                part = part[1]
             if isinstance(part, str):
                 out.append(part.encode("utf-8"))
                 offset += len(part)
